@@ -317,6 +317,8 @@ func c16Base(rng *rand.Rand) (sig, detail string, trace []string, shape string) 
 // c16Reconn: reconnecting client with keep-alive; earlier connections end by various causes; the
 // current connection is sampled while healthy (>= 2 keep-alive intervals after its CONNACK), then
 // Disconnect is called and Err()/Done() are sampled again after 3 more intervals.
+var kaChecked int
+
 func c16Reconn(rng *rand.Rand) (sig, detail string, trace []string, shape string) {
 	ping := []int{0, 2, 3, 5}[rng.Intn(4)]
 	sc := scen.Scenario{Client: "reconnect", Cfg: scen.BrokerCfg{Method: "A", Session: "keep"}, WaitBaseMs: 1, WaitMaxMs: 2, TimeoutMs: 15, PingMs: ping, KeepOpen: true}
@@ -377,6 +379,44 @@ func c16Reconn(rng *rand.Rand) (sig, detail string, trace []string, shape string
 	tr.Mu.Unlock()
 	if !healthy {
 		return "inconclusive", "current connection not open at quiescence", nil, ""
+	}
+	// a connection on which a PINGREQ was silently dropped ends by keep-alive timeout: the error that
+	// ended it (Closed callback, Err()) is ErrPingTimeout
+	{
+		ev := tr.Snapshot()
+		silent := false
+		dropped := map[int]bool{}
+		for _, e := range ev {
+			if e.Kind == memnet.KNote && strings.HasPrefix(e.S, "broker stops answering") {
+				silent = true
+			}
+			if e.Kind == memnet.KNote && strings.HasPrefix(e.S, "broker answers PINGREQ again") {
+				silent = false
+			}
+			if silent && e.Kind == memnet.KWrite && e.OK && e.S == "" && e.Pkt != nil && e.Pkt.Type == mqttref.PINGREQ {
+				dropped[e.Conn] = true
+			}
+		}
+		for id := range dropped {
+			if id == cur {
+				continue
+			}
+			kaChecked++
+			for _, s := range statesOf(ev, id) {
+				if s.state == "Closed" && !strings.Contains(s.err, mqtt.ErrPingTimeout.Error()) {
+					// only when nothing else was injected on that connection
+					other := false
+					for _, e := range ev {
+						if e.Conn == id && (e.Kind == memnet.KFault || e.Kind == memnet.KPeerClose || (e.Kind == memnet.KSend && e.Mal != "")) {
+							other = true
+						}
+					}
+					if !other {
+						return fail("wrong-error-for-keepalive-timeout", fmt.Sprintf("connection %d ended because a PINGREQ was never answered, but the Closed callback carried %q (Err()=%v), not ErrPingTimeout", id, s.err, clients[id].Err()))
+					}
+				}
+			}
+		}
 	}
 	// A PINGREQ dropped during a silent period still times out later: a connection that existed
 	// while the broker was silent is not healthy by construction and is not sampled.
@@ -468,6 +508,7 @@ func c16Run(c fw.Case, env *fw.Env) fw.Result {
 		case "":
 			r.NT = append(r.NT, fw.Hash(p.Mode, shape, c.Idx, i))
 			r.Counters[p.Mode+"_runs"]++
+			r.Counters["keepalive_timeout_connections_checked"] = kaChecked
 			if strings.HasPrefix(shape, "race:") {
 				r.Counters["racing_cause_pairs"]++
 			}
